@@ -4,7 +4,7 @@
 # (lane k of n takes every n-th change, so several lanes can run side by side).
 cd /verif
 LANE=${1:-0}; LANES=${2:-1}
-declare -A EXTRA=( [C01-2]="C14" [C03-1]="C02" [C03-2]="C18" [C10-2]="C14" [C11-1]="C14" [C11-2]="C12" [C14-1]="C10" [C18-1]="C03" [C09-1]="C12" [C05-1b]="C12" [C12-1b]="C05" [C02-1b]="C11" [C01-2b]="C18 C03" [C03-1c]="C02" [C19-1]="C05" [C02-1d]="C04 C01" [C16-2d]="C13" [C11-2d]="C19" [C10-2d]="C11" [C09-1c]="C08" [C09-2c]="C08 C05" [C05-1e]="C09 C14" [C03-2e]="C02 C18" [C07-1e]="C03 C14" [C05-2e]="C19" [C11-2e]="C08" [C10-2f]="C11" [C01-2]="C14 C09" [C14-2f]="C09" [C20-2f]="C16" [C10-1f]="C04" [C03-2g]="C12" [C06-1g]="C11" [C09-2g]="C15" [C13-1g]="C14" [C16-1g]="C13 C20" [C11-2g]="C08" [C08-1g]="C11" [C05-2g]="C08" [C10-2g]="C14" [C13-1h]="C16" [C20-1h]="C16" [C20-2h]="C13" [C11-1h]="C16" [C03-1h]="C12" [C16-2h]="C20" )
+declare -A EXTRA=( [C01-2]="C14" [C03-1]="C02" [C03-2]="C18" [C10-2]="C14" [C11-1]="C14" [C11-2]="C12" [C14-1]="C10" [C18-1]="C03" [C09-1]="C12" [C05-1b]="C12" [C12-1b]="C05" [C02-1b]="C11" [C01-2b]="C18 C03" [C03-1c]="C02" [C19-1]="C05" [C02-1d]="C04 C01" [C16-2d]="C13" [C11-2d]="C19" [C10-2d]="C11" [C09-1c]="C08" [C09-2c]="C08 C05" [C05-1e]="C09 C14" [C03-2e]="C02 C18" [C07-1e]="C03 C14" [C05-2e]="C19" [C11-2e]="C08" [C10-2f]="C11" [C01-2]="C14 C09" [C14-2f]="C09" [C20-2f]="C16" [C10-1f]="C04" [C03-2g]="C12" [C06-1g]="C11" [C09-2g]="C15" [C13-1g]="C14" [C16-1g]="C13 C20" [C11-2g]="C08" [C08-1g]="C11" [C05-2g]="C08" [C10-2g]="C14" [C13-1h]="C16" [C20-1h]="C16" [C20-2h]="C13" [C11-1h]="C16" [C03-1h]="C12" [C16-2h]="C20" [C03-2i]="C04" [C11-2i]="C16" [C01-1i]="C14" )
 n=0
 for d in seeded/*/; do
   n=$((n+1))
